@@ -26,6 +26,10 @@ func init() {
 		Run:       runC14,
 		Imports: []Import{
 			{From: "C08.d", As: "C14.e", Why: "a failed or partial deletion must leave the pointers at the progress actually made, so that the retry re-runs the handlers only for what is still stored"},
+			{From: "C08.c", Match: "shutdown-steps", As: "C14.f", Why: "the parallel deletion reports the lowest failed height (results sorted ascending, first failure returned): a vetoed header below the reported height would end up under the tail and never be retried"},
+			{From: "C08.c", Match: "evaluation-loop", As: "C14.f", Why: "see shutdown-steps"},
+			{From: "C08.c", Match: "first-failed-result-returned", As: "C14.f", Why: "see shutdown-steps"},
+			{From: "C08.c", Match: "next-result-needs-success", As: "C14.f", Why: "see shutdown-steps"},
 		},
 	})
 }
